@@ -149,6 +149,8 @@ def check(ob, scratch, gb, log):
     if results is None:
         why = "; ".join(msgs)[-2000:] or (se or so)[-2000:]
         return {"status": "error", "seconds": dt, "why": "cbmc gave no result list (rc=%s): %s" % (rc, why)}
+    if any("out of memory" in m for m in msgs) or any(r.get("status") == "ERROR" for r in results):
+        return {"status": "error", "seconds": dt, "why": "solver ran out of memory / returned ERROR for some properties"}
     for m in msgs:
         if re.search(r"ignoring (forall|exists)", m):
             return {"status": "error", "seconds": dt, "why": "quantifier dropped by back end: " + m}
